@@ -2,6 +2,7 @@ import LinOp.Core.Parse
 import LinOp.C04.Model
 import LinOp.C04.ModelEig
 import LinOp.C04.ModelSelect
+import LinOp.C04.ModelBcast
 /-! Line-protocol driver for the C04 solve model (exact rationals).
   sel solve <cholOrTri 0/1> <n> <maxChol> <fast 0/1>
   sel invquad <n> <maxChol> <fast> <logprob>
@@ -20,6 +21,9 @@ import LinOp.C04.ModelSelect
   sumkron <n1> <n2> <c> <RC> <RD> <Q1> <Q2> <e1> <e2> <rhs>             (inner solve = kpadloConstSolve2 … cst = 1)
   brepsolve <r> <b> <n> <c> <stacked base inverses (b·n rows)> <stacked rhs (r·b·n rows, c cols)>
   kronn <c> <sizes n1,n2,…> <stacked factor-solve matrices (Σ n_i rows; row i padded to max n)> <rhs (R rows, c cols)>
+  bcastsolve <n> <c> <sA> <sB> <stacked inverses (prod sA · n rows)> <stacked rhs (prod sB · n rows)>   (shapes `s2x1`, `s` = ())
+  bcastleft <n> <c> <o> <sA> <sB> <sL> <inverses> <rhs> <stacked left factors (prod sL · o rows, n cols)>
+  bcastkron <n1> <n2> <c> <sA> <sB> <factor-1 inverses> <factor-2 inverses> <rhs (prod sB · n1·n2 rows)>
   method <solve|invquad|iql> <class> <n> <maxChol> <fast> <logprob> <precSize> <minPrec> <chol> <triRoot> <capChol>  -/
 open LinOp LinOp.C04 LinOp.Parse
 
@@ -140,6 +144,12 @@ def outV {n m : Nat} (v : Vector (Vector Rat m) n) : String := showMat (v.toList
 
 def vecOf (l : List Rat) (n : Nat) : Fin n → Rat := let a := l.toArray; fun i => a[i.1]!
 
+/-- batch shape `s2x1x3` (`s` = the empty shape) -/
+def parseShape (s : String) : Option (List Nat) :=
+  match s.splitOn "s" with
+  | ["", r] => ((r.splitOn "x").filter (· ≠ "")).mapM String.toNat?
+  | _ => none
+
 def parseCls : String → Option OpClass
   | "generic" => some .generic | "addedDiag" => some .addedDiag | "diag" => some .diag | "ident" => some .ident
   | "tri" => some .tri | "kronTri" => some .kronTri | "chol" => some .chol | "kron" => some .kron
@@ -198,6 +208,46 @@ def runNew (line : String) : Option String :=
     | some e, some cls, some n, some mc, some ps, some mp =>
       some (methodOf e cls n ⟨mc, b01 fast, b01 lp, ps, mp⟩ ⟨b01 ch, b01 tr, b01 cc⟩).name
     | _, _, _, _, _, _ => some "bad-op"
+  | ["bcastsolve", n, c, sa, sb, ai, x] =>
+    match n.toNat?, c.toNat?, parseShape sa, parseShape sb, parseMat? ai, parseMat? x with
+    | some n, some c, some sA, some sB, some ai, some x =>
+      match LinOp.C01.broadcastShape sA sB with
+      | none => some "shape-error"
+      | some out =>
+        let Ainv : Nat → Mat Rat n n := fun m i j => (ai[m * n + i.1]!)[j.1]!
+        let B : Nat → Mat Rat n c := fun m i k => (x[m * n + i.1]!)[k.1]!
+        let Y := solveBroadcastFlat sA sB out Ainv B
+        some (showMat ((List.range (prodL out)).flatMap fun p => (Y p).toLists))
+    | _, _, _, _, _, _ => some "bad-op"
+  | ["bcastleft", n, c, o, sa, sb, sl, ai, x, l] =>
+    match n.toNat?, c.toNat?, o.toNat?, parseShape sa, parseShape sb, parseShape sl, parseMat? ai, parseMat? x, parseMat? l with
+    | some n, some c, some o, some sA, some sB, some sL, some ai, some x, some l =>
+      match LinOp.C01.broadcastShape sA sB with
+      | none => some "shape-error"
+      | some out =>
+        match LinOp.C01.broadcastShape sL out with
+        | none => some "shape-error"
+        | some out2 =>
+          let Ainv : Nat → Mat Rat n n := fun m i j => (ai[m * n + i.1]!)[j.1]!
+          let B : Nat → Mat Rat n c := fun m i k => (x[m * n + i.1]!)[k.1]!
+          let L : Nat → Mat Rat o n := fun m i k => (l[m * o + i.1]!)[k.1]!
+          let S := solveBroadcastFlat sA sB out Ainv B
+          let Sv : Array (Mat Rat n c) := (Array.range (prodL out)).map fun p => getM ((S p).toLists.map List.toArray).toArray n c
+          let Y := leftBroadcastFlat sL out out2 L (fun q => Sv.getD q (fun _ _ => 0))
+          some (showMat ((List.range (prodL out2)).flatMap fun p => (Y p).toLists))
+    | _, _, _, _, _, _, _, _, _ => some "bad-op"
+  | ["bcastkron", n1, n2, c, sa, sb, ai, bi, x] =>
+    match n1.toNat?, n2.toNat?, c.toNat?, parseShape sa, parseShape sb, parseMat? ai, parseMat? bi, parseMat? x with
+    | some n1, some n2, some c, some sA, some sB, some ai, some bi, some x =>
+      match LinOp.C01.broadcastShape sA sB with
+      | none => some "shape-error"
+      | some out =>
+        let Ainv : Nat → Mat Rat n1 n1 := fun m i j => (ai[m * n1 + i.1]!)[j.1]!
+        let Binv : Nat → Mat Rat n2 n2 := fun m i j => (bi[m * n2 + i.1]!)[j.1]!
+        let X : Nat → Mat Rat (n1 * n2) c := fun m i k => (x[m * (n1 * n2) + i.1]!)[k.1]!
+        let Y := kronSolveBroadcastFlat sA sB out Ainv Binv X
+        some (showMat ((List.range (prodL out)).flatMap fun p => (Y p).toLists))
+    | _, _, _, _, _, _, _, _ => some "bad-op"
   | _ => none
 
 def main : IO Unit := do
